@@ -1257,6 +1257,29 @@ def _r21g(chk, repo) -> None:
     chk.floor("R21g.dialect_collection_reads_in_rule_code", 5)
 
 
+def _r21i(chk, repo) -> None:
+    from ..flowutil import must_pass
+
+    f = repo.fn("src/sqlfluff/core/config/fluffconfig.py", "FluffConfig._handle_comma_separated_values")
+    cfg = cfg_of(f)
+    n = 0
+    for l in [l for l in walk_local(f) if isinstance(l, ast.For)]:
+        tnames = [x.id for x in ast.walk(l.target) if isinstance(x, ast.Name)]
+        if len(tnames) != 2:
+            continue
+        out = tnames[1]
+        stores = [st for b in l.body for st in ast.walk(b) if isinstance(st, ast.Assign) and any(isinstance(t, ast.Subscript) and isinstance(t.slice, ast.Name) and t.slice.id == out for t in st.targets)]
+        n += 1
+        chk.require(
+            bool(stores) and must_pass(cfg, l.body[0], l, stores), "R21i", l,
+            f"a path through the loop leaves `[{out}]` as it was: when the source key becomes empty (an in-file `-- sqlfluff:exclude_rules:None`, a nested config that clears `rules`) the "
+            "old derived list survives and the rule pack is built from a selection that is no longer configured",
+            detail="_handle_comma_separated_values: the derived key is stored on every path",
+        )
+    chk.count("R21i.derived_key_loops", n)
+    chk.floor("R21i.derived_key_loops", 1)
+
+
 def _r21h(chk, repo) -> None:
     from ..flowutil import must_pass, param_origin
 
@@ -1297,6 +1320,8 @@ def run(chk) -> None:
     chk.rule("R21d", "get_rulepack instantiates the registered codes that are in the expansion of the allow-list and not in the expansion of the deny-list, one expander, one reference map, which is also the noqa map")
     chk.rule("R21e", "rule objects keep no state between evaluations except the reviewed (class, attribute) rows")
     chk.rule("R21f", "no class attribute of a rule class and no module-/class-level object in rules/, utils/, core/rules has a mutation site")
+    chk.rule("R21i", "the derived selection lists (rule_allowlist, rule_denylist, ignore, warnings) are recomputed from their source key every time: in FluffConfig._handle_comma_separated_values every path through the loop body stores the derived key")
+    _r21i(chk, chk.repo)
     chk.rule("R21h", "the selector expander drops no selector: every path through the body of its loop over the given selectors looks the selector up in the reference map (direct entry) or matches it as a glob against the map's keys")
     _r21h(chk, chk.repo)
     chk.rule("R21g", "no rule changes in place a collection handed out by the shared dialect object (dialect.sets(..), bracket_sets(..), lexer matchers)")
@@ -1319,6 +1344,18 @@ ST05 = "src/sqlfluff/rules/structure/ST05.py"
 ST06 = "src/sqlfluff/rules/structure/ST06.py"
 
 VARIANTS: List[Variant] = [
+    Variant(
+        "derived-lists-kept-when-the-source-is-cleared", "src/sqlfluff/core/config/fluffconfig.py",
+        '            else:\n                self._configs["core"][out_key] = []\n',
+        '            elif not self._configs["core"].get(out_key):\n                self._configs["core"][out_key] = []\n',
+        "R21i", "_handle_comma_separated_values", "seeded C21-6",
+    ),
+    Variant(
+        "quiet-derived-lists-as-a-conditional-expression", "src/sqlfluff/core/config/fluffconfig.py",
+        '            if in_value:\n                assert not isinstance(in_value, dict)\n                self._configs["core"][out_key] = split_comma_separated_string(in_value)\n            else:\n                self._configs["core"][out_key] = []\n',
+        '            assert not isinstance(in_value, dict)\n            self._configs["core"][out_key] = split_comma_separated_string(in_value) if in_value else []\n',
+        "QUIET", None, "R21i: one store with a conditional expression",
+    ),
     Variant(
         "expander-globs-only-starred-selectors", "src/sqlfluff/core/rules/base.py",
         "            else:\n                matched_refs = fnmatch.filter(reference_map.keys(), r)\n",
